@@ -22,7 +22,7 @@ import (
 	"golang.org/x/tools/go/ssa/ssautil"
 )
 
-const repoDir = "/repo"
+var repoDir = "/repo"
 const modPath = "github.com/evanw/esbuild"
 
 var verifDir = "/verif"
@@ -435,6 +435,9 @@ func main() {
 	}
 	if v := os.Getenv("VERIF_DIR"); v != "" {
 		verifDir = v
+	}
+	if v := os.Getenv("VERIF_REPO"); v != "" {
+		repoDir = v // used only for background sweeps on a snapshot of /repo
 	}
 	if p := os.Getenv("GOSYM_CPUPROFILE"); p != "" {
 		f, _ := os.Create(p)
